@@ -23,6 +23,49 @@ def mask_raw(m):
     return [m[0], m[1], out]
 
 
+def receive_one(c, cut):
+    """-> None (no session expects this message / direct decoder refuses it) | (cut, what-or-None)"""
+    from lib import sessions as S
+
+    data = bytes(c["data"])
+    m = c["msg"]
+    mid, k = m[0], m[1][0]
+    try:
+        direct, rest = decode(data)
+        want = canon(msgs.r_msg(direct))
+    except Exception:  # noqa: BLE001
+        return None
+    if rest:
+        return None
+
+    def fresh():
+        if k in (0, 3, 7):
+            return S.new_session(S.SERVER)
+        if k in (1, 4, 5, 6, 8) and isinstance(mid, int) and 1 <= mid <= 5 and not (k == 1 and mid != 1):
+            s = S.new_session(S.CLIENT)
+            for _ in range(mid):
+                call = [S.C_BIND, b"", [1, b"GSSAPI", []], []] if k == 1 else [S.C_EXT, b"1.2", [], []] if k == 8 else [S.C_SEARCH, b"", 2, 0, 0, 0, 0, [7, b"objectClass"], [], []]
+                if S.outcome_of(s, call)[0] != 0:
+                    return None
+            return s
+        return None
+
+    s1 = fresh()
+    if s1 is None:
+        return None
+    whole = S.outcome_of(s1, [S.RECV, data])
+    if whole[0] != 3:
+        return None  # the session refuses the message for protocol reasons (the session properties' question)
+    if canon(whole[1]) != [want]:
+        return cut, "receive() returns a different message than the direct decoder for the same octets"
+    s2 = fresh()
+    a = S.outcome_of(s2, [S.RECV, data[:cut]])
+    b = S.outcome_of(s2, [S.RECV, data[cut:]])
+    if a[0] != 3 or b[0] != 3 or canon(a[1]) + canon(b[1]) != [want]:
+        return cut, f"delivered in two parts (cut at {cut} of {len(data)}) the encoding is not read as the same message: {str(a)[:80]} / {str(b)[:80]}"
+    return cut, None
+
+
 class C04(Prop):
     id = "C04"
     prop_file = "Props/C04"
@@ -36,7 +79,7 @@ class C04(Prop):
         "length octets (also for short contents), TRUE as any non-zero octet, explicitly encoded DEFAULT FALSE "
         "(criticality, dnAttributes), unrecognised trailing elements (private-class, NULL, high context tags) after the "
         "defined components of the extensible sequences; implementation and extracted model decode the result, which "
-        "must equal the decoding of the library's own encoding; non-trivial = at least one freedom was actually used"
+        "must equal the decoding of the library's own encoding; every accepted encoding is also delivered to a session expecting it, whole and cut in two at a random offset, and receive() must return the same message; non-trivial = at least one freedom was actually used"
     )
     assumptions = [
         "trailing elements use tags the header reader accepts (UNIVERSAL numbers of the TypeTagNumber table) and are placed only where RFC 4511 marks the type extensible; SET OF filter / SEQUENCE OF URI are not extensible",
@@ -92,6 +135,9 @@ class C04(Prop):
         if ans and ans[0] == "!timeout":
             return "timeout"
         a = ans[0]
+        if c.get("receive_cut") is not None:
+            r = receive_one(c, c["receive_cut"])
+            return None if r is None else r[1]
         if known_oid_generic(c["msg"]):
             return None
         if a[0] != 0:
@@ -104,6 +150,33 @@ class C04(Prop):
         if have != want:
             return f"decoded value differs from the decoding of the library's own encoding; freedoms used: {c['used']}"
         return None
+
+    def extra_checks(self, tier, seed, ctx):
+        """Peers talk to sessions, not to unpack_ldap_message: every encoding the direct decoder accepts is also
+        delivered to a session that expects such a message (a server for requests; a client that has issued the
+        matching requests for responses with ids 1..5), whole and cut in two at a random offset.  receive() must
+        return exactly the message the direct decoder returns, for both deliveries."""
+        from lib import sessions as S
+
+        rng = random.Random(seed ^ 0xC04)
+        out = []
+        self.delivered = 0
+        for c in ctx["cases"]:
+            if len(ctx["cases"]) > 6000 and rng.random() < 0.8:
+                continue
+            r = receive_one(c, rng.randrange(1, max(2, len(c["data"]))))
+            if r is None:
+                continue
+            self.delivered += 1
+            cut, what = r
+            if what:
+                out.append(({**c, "receive_cut": cut}, what))
+                if len(out) >= 3:
+                    break
+        return out
+
+    def extra_evidence(self, ctx):
+        return {"encodings_delivered_to_sessions": getattr(self, "delivered", 0)}
 
     def classify(self, c):
         u = c.get("used") or []
